@@ -250,45 +250,54 @@ func checkSigning(c *pbt.C, kp *wallet.KeyPair, n refNode, otherPub ed25519.Publ
 }
 
 var badPathTemplates = []string{
-	"m/44'/73404'/%d",       // last not hardened
-	"m/44/73404/%d",         // none hardened
-	"m/44'/73404/%d'",       // middle not hardened
-	"44'/73404'/%d'",        // no m
-	"/44'/73404'/%d'",       //
-	"M/44'/73404'/%d'",      //
-	"m/44'/73404'/%d'/",     // trailing slash
-	"m//44'/73404'/%d'",     // empty segment
-	"m/44'/73404'/%d''",     // doubled mark
-	"m/44'/73404'/%dh",      // other hardening mark
-	"m/44'/73404'/%dH",      //
-	"m/44'/73404'/-%d'",     // sign
-	"m/44'/73404'/+%d'",     //
-	"m/44'/73404'/%d.0'",    //
-	"m/44'/73404'/0x%d'",    //
-	"m/44'/73404'/%d'\n",    // trailing newline
-	"\nm/44'/73404'/%d'",    //
-	" m/44'/73404'/%d'",     //
-	"m/44'/73404'/ %d'",     //
-	"m/44'/73404'/%d '",     //
-	"m/44'/73404'/%d’", // typographic apostrophe
-	"m/44'/73404'/١%d'", // arabic-indic digit
-	"m/44'/73404'/%d'/x'",   //
-	"m/44'/73404'/'",        // no digits
-	"m/'",                   //
-	"m/",                    //
-	"",                      //
-	"m/44'/73404'/4294967296'",             // 2^32
-	"m/44'/73404'/2147483648'",             // 2^31: cannot be hardened
-	"m/44'/73404'/4294967295'",             // 2^32-1
-	"m/2147483648'/73404'/%d'",             //
-	"m/44'/73404'/18446744073709551616'",   // 2^64
+	"m/44'/73404'/%d",                       // last not hardened
+	"m/44/73404/%d",                         // none hardened
+	"m/44'/73404/%d'",                       // middle not hardened
+	"44'/73404'/%d'",                        // no m
+	"/44'/73404'/%d'",                       //
+	"M/44'/73404'/%d'",                      //
+	"m/44'/73404'/%d'/",                     // trailing slash
+	"m//44'/73404'/%d'",                     // empty segment
+	"m/44'/73404'/%d''",                     // doubled mark
+	"m/44'/73404'/%dh",                      // other hardening mark
+	"m/44'/73404'/%dH",                      //
+	"m/44'/73404'/-%d'",                     // sign
+	"m/44'/73404'/+%d'",                     //
+	"m/44'/73404'/%d.0'",                    //
+	"m/44'/73404'/0x%d'",                    //
+	"m/44'/73404'/%d'\n",                    // trailing newline
+	"\nm/44'/73404'/%d'",                    //
+	" m/44'/73404'/%d'",                     //
+	"m/44'/73404'/ %d'",                     //
+	"m/44'/73404'/%d '",                     //
+	"m/44'/73404'/%d’",                      // typographic apostrophe
+	"m/44'/73404'/١%d'",                     // arabic-indic digit
+	"m/44'/73404'/%d'/x'",                   //
+	"m/44'/73404'/'",                        // no digits
+	"m/'",                                   //
+	"m/",                                    //
+	"",                                      //
+	"m/44'/73404'/4294967296'",              // 2^32
+	"m/44'/73404'/2147483648'",              // 2^31: cannot be hardened
+	"m/44'/73404'/4294967295'",              // 2^32-1
+	"m/2147483648'/73404'/%d'",              //
+	"m/44'/73404'/18446744073709551616'",    // 2^64
 	"m/44'/73404'/99999999999999999999999'", //
-	"m/44'/73404'/%d'\x00",                 //
+	"m/44'/73404'/%d'\x00",                  //
 }
 
 func genMutatedPath(c *pbt.C, base string) string {
 	alphabet := "m/'0123456789 hH-+.x\n9'/"
 	b := []byte(base)
+	if c.Weighted("mut-zeros", 3, 1) == 1 { // leading zeros in one number
+		seg := c.Pick("mut-zero-seg", 3)
+		pos := 0
+		for k := 0; k <= seg; k++ {
+			pos += strings.IndexByte(base[pos:], '/') + 1
+		}
+		z := strings.Repeat("0", c.Int("mut-zero-count", 1, 12))
+		return base[:pos] + z + base[pos:]
+	}
 	for k := c.Int("mut-count", 1, 2); k > 0; k-- {
 		pos := c.Int("mut-pos", 0, len(b))
 		switch c.Pick("mut-op", 3) {
@@ -351,10 +360,10 @@ func TestC19Derivation(t *testing.T) {
 					d2 := guard(func() (*wallet.KeyPair, error) { _, kp, err := ks.DeriveForIndexPath(i); return kp, err })
 					checkKeyPair(c, fmt.Sprintf("KeyStore.DeriveForIndexPath(%d)", i), d2, n)
 					d3 := guard(func() (*wallet.KeyPair, error) { _, kp, err := ks.DeriveForIndexPath(i); return kp, err })
-					if d3.kp == nil || !bytes.Equal(d3.kp.Private, d2.kp.Private) || d3.kp.Address != d2.kp.Address {
+					if d2.kp != nil && (d3.kp == nil || !bytes.Equal(d3.kp.Private, d2.kp.Private) || d3.kp.Address != d2.kp.Address) {
 						c.Failf("C19/derive-nondeterministic", "two derivations of index %d differ", i)
 					}
-					if c.Weighted("find", 3, 1) == 1 {
+					if d2.kp != nil && c.Weighted("find", 3, 1) == 1 {
 						c.Class("find-address")
 						var kp *wallet.KeyPair
 						var fi uint32
